@@ -59,3 +59,9 @@ def parse_triggers(t, text=None):
         if n[0] == "lam" and path_len(n[1]) >= 2 and path_root(n[1])[2]:
             keys.append("namespace-lost-in-path")
     return keys
+
+
+def text_triggers(text):
+    """Triggers that can be decided on raw text (C10/C20 inputs are arbitrary strings)."""
+    keys = []
+    return keys
